@@ -157,7 +157,12 @@ func c19Convert(src []byte, o c19Opt) (doc *document.Document, what, detail stri
 		}()
 		opts := o.mk()
 		conv := markdown.NewConverter(opts)
-		doc, err = conv.ConvertBytes(src, opts)
+		// the caller's buffer: handed over for the call only, reused for something else afterwards
+		buf := append([]byte{}, src...)
+		doc, err = conv.ConvertBytes(buf, opts)
+		for k := range buf {
+			buf[k] = '#'
+		}
 	}()
 	if what != "" {
 		return nil, what, detail
